@@ -1,6 +1,8 @@
 package main
 
 import (
+	"runtime/debug"
+	"runtime/pprof"
 	"flag"
 	"fmt"
 	"os"
@@ -22,6 +24,12 @@ func main() {
 	if len(os.Args) < 2 {
 		fmt.Fprintln(os.Stderr, "usage: gowp verify|check|lock|list ...")
 		os.Exit(2)
+	}
+	debug.SetGCPercent(600) // term graphs are large and long-lived: trade memory for less collector work
+	if pf := os.Getenv("GOWP_PROF"); pf != "" {
+		f, _ := os.Create(pf)
+		pprof.StartCPUProfile(f)
+		defer pprof.StopCPUProfile()
 	}
 	switch os.Args[1] {
 	case "verify":
